@@ -607,6 +607,7 @@ class BaseSection(base.Sectionable):
                 raise ValueError("odml.Section.insert: "
                                  "Section with name '%s' already exists." % obj.name)
 
+            self._check_position(position)
             self._prepare_child(obj)
             self._sections.insert(position, obj)
             obj._parent = self
@@ -615,6 +616,7 @@ class BaseSection(base.Sectionable):
                 raise ValueError("odml.Section.insert: "
                                  "Property with name '%s' already exists." % obj.name)
 
+            self._check_position(position)
             self._prepare_child(obj)
             self._props.insert(position, obj)
             obj._parent = self
